@@ -440,6 +440,7 @@ impl Generator {
             mode: Mode::Provider,
             rewrap_woff2: false,
             woff2_tail_blocks: 0,
+            woff2_tail_claimed: false,
             woff2_meta_blocks: 0,
             wrap_woff2: false,
             wrap_opts: None,
@@ -673,6 +674,7 @@ impl Generator {
                 t.rewrap_woff2 = true;
                 if rng.pct(5) {
                     t.woff2_tail_blocks = *rng.pick(&[1u32, 4, 40, 250]);
+                    t.woff2_tail_claimed = rng.pct(50);
                 } else if rng.pct(4) {
                     t.woff2_meta_blocks = *rng.pick(&[1u32, 4, 40, 250]);
                 }
